@@ -827,6 +827,62 @@ func C20(c *core.Ctx) {
 			}
 		}
 	}
+	// bursts: the client's inbound QoS 2 queue holds 16 exchanges and grows beyond; every count
+	// of exchanges in flight 1..36 after 0/3/5 completed ones (the queue's ring is wrapped then),
+	// released oldest first or newest first: the callback runs once per message, at its PUBREL
+	// or when the earlier ones are released
+	{
+		n := 0
+		for _, done := range []int{0, 3, 5} {
+			for inflight := 1; inflight <= 36; inflight++ {
+				for _, order := range []string{"fifo", "lifo"} {
+					n++
+					if c.NShards > 1 && n%c.NShards != c.Shard {
+						continue
+					}
+					if c.Expired() || c.HasViolation() {
+						return
+					}
+					if !c.Thorough() && order == "lifo" && inflight%4 != 1 {
+						continue
+					}
+					all := []cop{{kind: "api:sub", filters: []string{"a"}, qoss: []byte{2}}, {kind: "srv:suback"}}
+					id := uint16(100)
+					for i := 0; i < done; i++ {
+						id++
+						all = append(all, cop{kind: "srv:pub", topic: "a", qos: 2, id: id, payload: fmt.Sprintf("done-%d", i)}, cop{kind: "srv:pubrel", id: id})
+					}
+					first := id + 1
+					for i := 0; i < inflight; i++ {
+						id++
+						all = append(all, cop{kind: "srv:pub", topic: "a", qos: 2, id: id, payload: fmt.Sprintf("burst-%d", i)})
+					}
+					for i := 0; i < inflight; i++ {
+						k := first + uint16(i)
+						if order == "lifo" {
+							k = id - uint16(i)
+						}
+						all = append(all, cop{kind: "srv:pubrel", id: k})
+					}
+					all = append(all, cop{kind: "srv:pub", topic: "a", qos: 0, payload: "end"})
+					hist := make([]int, len(all))
+					for i := range hist {
+						hist[i] = i
+					}
+					v, _, steps := runDispatch(all, hist, false)
+					c.Rep.Evaluations++
+					c.Rep.Executions++
+					c.Rep.States++
+					c.Rep.Transitions += int64(steps)
+					if v != "" {
+						if c.Violate("C20 burst :: "+violClass(v), core.Replay{Scenario: fmt.Sprintf("burst: %d completed QoS 2 deliveries, then %d in flight, released %s", done, inflight, order), Message: v}) {
+							return
+						}
+					}
+				}
+			}
+		}
+	}
 	c.Rep.Scenarios++
 	ops := dispatchOps(c.Thorough())
 	overlapKnown = c.Known[KnownOverlap]
